@@ -10,9 +10,12 @@ import (
 	"fmt"
 	"os"
 	"path/filepath"
+	"strings"
 
 	"github.com/flanglet/kanzi-go/v2/verifharness/props"
 )
+
+var appendTo []props.CorpusEntry
 
 func main() {
 	dir := os.Args[1]
@@ -50,8 +53,39 @@ func main() {
 		spec{"LZ", "HUFFMAN", "text", 10, 1024, 64, false, 1},
 		spec{"BWT", "ANS0", "text", 300000, 262144, 32, false, 2},
 	)
-	var index []props.CorpusEntry
+	// the presets of the command-line levels 1-9 (the most used configurations) and the pairs whose
+	// transform looks at the entropy codec (TEXT sizes its tables by it, RLT picks its escape by it)
+	levels := []string{"LZX&NONE", "DNA+LZ&HUFFMAN", "TEXT+UTF+PACK+MM+LZX&HUFFMAN", "TEXT+UTF+EXE+PACK+MM+ROLZ&NONE", "TEXT+UTF+BWT+RANK+ZRLT&ANS0",
+		"TEXT+UTF+BWT+SRT+ZRLT&FPAQ", "LZP+TEXT+UTF+BWT+LZP&CM", "EXE+RLT+TEXT+UTF+DNA&TPAQ", "EXE+RLT+TEXT+UTF+DNA&TPAQX"}
+	for _, l := range levels {
+		te := strings.Split(l, "&")
+		n := 60000
+		if strings.HasPrefix(te[1], "TPAQ") {
+			n = 40000
+		}
+		specs = append(specs, spec{te[0], te[1], "prose", n, 65536, 32, false, 2})
+		specs = append(specs, spec{te[0], te[1], "mixed", n / 2, 16384, 0, false, 1})
+	}
+	for _, e := range props.EntropyNames {
+		n := 40000
+		if e == "TPAQ" || e == "TPAQX" {
+			n = 30000
+		}
+		specs = append(specs, spec{"TEXT", e, "prose", n, 65536, 32, false, 1})
+		specs = append(specs, spec{"RLT", e, "runs", n / 2, 16384, 0, false, 1})
+	}
+	if len(os.Args) > 2 && os.Args[2] == "append" {
+		// keep the entries already archived byte for byte: only new specs are added
+		var old []props.CorpusEntry
+		if raw, err := os.ReadFile(filepath.Join(dir, "index.json")); err == nil {
+			json.Unmarshal(raw, &old)
+		}
+		specs = specs[len(old):]
+		appendTo = old
+	}
+	index := appendTo
 	for i, s := range specs {
+		i += len(appendTo)
 		rec := props.DataRecipe{Shape: s.shape, Len: s.n, Seed: uint64(1000 + i)}
 		data := rec.Bytes()
 		cfg := props.Config{Transform: s.t, Entropy: s.e, BlockSize: s.bs, Jobs: s.jobs, DecJobs: 1, Checksum: s.ck, Headerless: s.hl, Hint: "exact", HintValue: int64(len(data))}
